@@ -24,7 +24,7 @@ MIN_DECIDED = {'quick': 400, 'thorough': 4000}
 CASE_TIMEOUT = {'quick': 120, 'thorough': 1200}
 EXHAUSTIVE_NOTE = 'all 3^(K*K) score matrices over {0,1,2} for K = 1, 2, 3 with algorithms greedy and optimal (2 * (3 + 81 + 19683) calls) are driven completely in both tiers'
 ASSUMPTIONS = ['rows of a mask may coincide (constant / tied masks): only bitwise row identity with the mapped input row is demanded']
-MASKS = ['continuous', 'binary', 'int8', 'int32', 'uint8', 'constant', 'zero', 'tied', 'int8-ones']
+MASKS = ['continuous', 'binary', 'int8', 'int32', 'uint8', 'constant', 'zero', 'tied', 'int8-ones', 'bool']
 
 
 def plan(tier, seed):
@@ -35,7 +35,7 @@ def plan(tier, seed):
     n = S(tier, 300, 3000)
     for r in range(n):
         cases.append(dict(lane='matrix', K=int(rng.integers(1, 7)), lead=pick([[], [3], [2, 2]]), alg=pick(['greedy', 'optimal']),
-                          dtype=pick(['float', 'float', 'int8', 'int16', 'int64', 'int8-min', 'int32-min', 'float-ties']), rs=[seed, 15, i]))
+                          dtype=pick(['float', 'float', 'int8', 'int16', 'int64', 'int8-min', 'int32-min', 'float-ties', 'bool', 'uint8']), rs=[seed, 15, i]))
         i += 1
     m = S(tier, 240, 2400)
     for r in range(m):
@@ -91,6 +91,10 @@ def run_matrix(case, R):
         sm = rng.standard_normal(shape) * 10 ** rng.uniform(-3, 3)
     elif dt == 'float-ties':
         sm = rng.integers(0, 3, size=shape).astype(float)
+    elif dt == 'bool':
+        sm = rng.uniform(size=shape) < 0.5              # co-occurrence / overlap indicators
+    elif dt == 'uint8':
+        sm = rng.integers(0, 256, size=shape).astype(np.uint8)
     elif dt.endswith('-min'):
         t = np.dtype(dt[:-4])
         sm = rng.integers(-5, 6, size=shape).astype(t)
@@ -121,6 +125,8 @@ def make_mask(rng, cls, K, F, T):
         return (rng.uniform(size=(K, F, T)) < 0.4).astype(float)
     if cls in ('int8', 'int32', 'uint8'):
         return rng.integers(0, 4, size=(K, F, T)).astype(cls)
+    if cls == 'bool':
+        return rng.uniform(size=(K, F, T)) < 0.4
     if cls == 'int8-ones':
         return np.ones((K, F, T), dtype=np.int8)
     if cls == 'constant':
